@@ -20,9 +20,13 @@ var docxNS = [][2]string{
 }
 
 type docxPkg struct {
-	Doc     *Node
-	Styles  *Node // nil when the part is absent
-	Members []writers.Member
+	Doc       *Node
+	Styles    *Node // nil when the part is absent
+	Numbering *Node // nil when the part is absent
+	Tables    []*Node // the w:tbl elements of the body (not the nested ones), in order
+	Headers   []*Node // the header parts in relationship order
+	Footers   []*Node // the footer parts in relationship order
+	Members   []writers.Member
 }
 
 func wval(tag, v string) *Node { return E(tag).A("w:val", v) }
@@ -244,6 +248,8 @@ func docxRunItems(run lrun) []*Node {
 			kids = append(kids, E("w:br").A("w:type", "page"))
 		case "sym":
 			kids = append(kids, E("w:sym").A("w:font", "Wingdings").A("w:char", it.Tok))
+		case "lit":
+			kids = append(kids, E("w:t", T(it.Tok)).A("xml:space", "preserve"))
 		}
 	}
 	return kids
@@ -277,7 +283,7 @@ func docxPara(p *lpara, need map[string]bool) *Node {
 	if style != "" {
 		ppr.Add(wval("w:pStyle", style))
 	}
-	if p.Kind == "li" {
+	if p.Kind == "li" || p.AlsoList {
 		switch p.RawLevel {
 		case "":
 			ppr.Add(E("w:numPr", wval("w:ilvl", strconv.Itoa(p.Level)), wval("w:numId", strconv.Itoa(p.NumID))))
@@ -392,6 +398,14 @@ func docxNumbering() *Node {
 	return n
 }
 
+// docxNumberingFor: the numbering part of the document.
+func docxNumberingFor(d *ldoc) *Node {
+	if d.NumSeed != 0 {
+		return docxNumberingVariant(hx.NewRng(d.NumSeed))
+	}
+	return docxNumbering()
+}
+
 func docxHdrFtr(tag string, toks []string) *Node {
 	n := E(tag)
 	for _, t := range toks {
@@ -405,11 +419,14 @@ const relNS = "http://schemas.openxmlformats.org/officeDocument/2006/relationshi
 func writeDocx(r *hx.Rng, d *ldoc) docxPkg {
 	need := map[string]bool{"Normal": true}
 	body := E("w:body")
+	var bodyTables []*Node
 	for _, bl := range d.Blocks {
 		if bl.P != nil {
 			body.Add(docxPara(bl.P, need))
 		} else {
-			body.Add(docxTable(bl.T, need))
+			tn := docxTable(bl.T, need)
+			bodyTables = append(bodyTables, tn)
+			body.Add(tn)
 		}
 	}
 	sect := E("w:sectPr")
@@ -421,7 +438,7 @@ func writeDocx(r *hx.Rng, d *ldoc) docxPkg {
 	}
 	sect.Add(E("w:pgSz").A("w:w", "12240").A("w:h", "15840"))
 	body.Add(sect)
-	pkg := docxPkg{Doc: E("w:document", body)}
+	pkg := docxPkg{Doc: E("w:document", body), Tables: bodyTables}
 
 	ct := `<?xml version="1.0" encoding="UTF-8" standalone="yes"?>` + "\n" +
 		`<Types xmlns="http://schemas.openxmlformats.org/package/2006/content-types">` +
@@ -455,17 +472,30 @@ func writeDocx(r *hx.Rng, d *ldoc) docxPkg {
 		rels += `<Relationship Id="rId1" Type="` + relNS + `/styles" Target="styles.xml"/>`
 	}
 	if d.Numbering {
-		members = append(members, writers.Member{Name: "word/numbering.xml", Data: docxNumbering().XML(docxNS)})
+		pkg.Numbering = docxNumberingFor(d)
+		members = append(members, writers.Member{Name: "word/numbering.xml", Data: pkg.Numbering.XML(docxNS)})
 		ct += `<Override PartName="/word/numbering.xml" ContentType="application/vnd.openxmlformats-officedocument.wordprocessingml.numbering+xml"/>`
 		rels += `<Relationship Id="rId4" Type="` + relNS + `/numbering" Target="numbering.xml"/>`
 	}
 	if len(d.Header) > 0 {
-		members = append(members, writers.Member{Name: "word/header1.xml", Data: docxHdrFtr("w:hdr", d.Header).XML(docxNS)})
-		ct += `<Override PartName="/word/header1.xml" ContentType="application/vnd.openxmlformats-officedocument.wordprocessingml.header+xml"/>`
-		rels += `<Relationship Id="rId2" Type="` + relNS + `/header" Target="header1.xml"/>`
+		parts := [][]string{d.Header}
+		if d.Render && len(d.Header) > 1 {
+			// render stream: the header lines spread over two header parts (default and first page)
+			parts = [][]string{d.Header[:1], d.Header[1:]}
+		}
+		for k, lines := range parts {
+			name := fmt.Sprintf("header%d.xml", k+1)
+			rid := []string{"rId2", "rId5"}[k]
+			h := docxHdrFtr("w:hdr", lines)
+			pkg.Headers = append(pkg.Headers, h)
+			members = append(members, writers.Member{Name: "word/" + name, Data: h.XML(docxNS)})
+			ct += `<Override PartName="/word/` + name + `" ContentType="application/vnd.openxmlformats-officedocument.wordprocessingml.header+xml"/>`
+			rels += `<Relationship Id="` + rid + `" Type="` + relNS + `/header" Target="` + name + `"/>`
+		}
 	}
 	if len(d.Footer) > 0 {
-		members = append(members, writers.Member{Name: "word/footer1.xml", Data: docxHdrFtr("w:ftr", d.Footer).XML(docxNS)})
+		pkg.Footers = []*Node{docxHdrFtr("w:ftr", d.Footer)}
+		members = append(members, writers.Member{Name: "word/footer1.xml", Data: pkg.Footers[0].XML(docxNS)})
 		ct += `<Override PartName="/word/footer1.xml" ContentType="application/vnd.openxmlformats-officedocument.wordprocessingml.footer+xml"/>`
 		rels += `<Relationship Id="rId3" Type="` + relNS + `/footer" Target="footer1.xml"/>`
 	}
